@@ -114,6 +114,15 @@ def step (base : Bool) (st : St) (j : Json) : Except String (St × String) := do
     let (n, e) := Zeno.Model.Warc.visit A (natD j "maxRetry" 0) site
     let es := match e with | .failed => "failed" | .ok s => s!"ok:{s}" | .fellThrough => "fell-through"
     pure (st, s!"requests={n} end={es}")
+  | "decide" =>
+    -- the archiver's tables for one response: {"status":n,"cf":bool,"discard":[...]}
+    let A := if base then Zeno.Base.Archiver.facts else Zeno.Gen.Archiver.facts
+    let dl : List Nat := match j.getObjVal? "discard" with
+      | .ok (.arr a) => a.toList.filterMap (fun e => e.getNat?.toOption)
+      | _ => []
+    let stt := natD j "status" 200
+    let cf := boolD j "cf" false
+    pure (st, s!"discarded={Zeno.Model.Warc.discarded A stt cf dl} retried={Zeno.Model.Warc.retried A stt cf}")
   | "close" => pure (st, "ok")
   | _ => throw s!"bad op {op}"
 
